@@ -13,7 +13,11 @@ sys.path.insert(0, os.path.dirname(os.path.abspath(__file__)))
 import tlaval  # noqa: E402
 
 VERIF = "/verif"
-REPO = "/repo"
+# the checks rebuild from /repo's working tree; VERIF_REPO / VERIF_WORKROOT / VERIF_EVIDENCE_DIR exist only so that
+# seeded changes can be tried in scratch worktrees without touching /repo, /verif/work or /verif/evidence
+REPO = os.environ.get("VERIF_REPO", "/repo")
+WORKROOT = os.environ.get("VERIF_WORKROOT", os.path.join(VERIF, "work"))
+EVIDENCE_DIR = os.environ.get("VERIF_EVIDENCE_DIR", os.path.join(VERIF, "evidence"))
 NCPU = 16
 
 
@@ -33,13 +37,13 @@ class Inconclusive(Exception):
 
 
 def workdir(pid, sub=""):
-    d = os.path.join(VERIF, "work", pid, sub) if sub else os.path.join(VERIF, "work", pid)
+    d = os.path.join(WORKROOT, pid, sub) if sub else os.path.join(WORKROOT, pid)
     os.makedirs(d, exist_ok=True)
     return d
 
 
 def clean_workdir(pid):
-    d = os.path.join(VERIF, "work", pid)
+    d = os.path.join(WORKROOT, pid)
     if os.path.isdir(d):
         shutil.rmtree(d, ignore_errors=True)
     os.makedirs(d, exist_ok=True)
@@ -50,10 +54,17 @@ def build_harness(pid):
     """go build the harness (tag verif) against /repo's current working tree."""
     wd = workdir(pid, "bin")
     out = os.path.join(wd, "pcharness")
-    shutil.copyfile(os.path.join(REPO, "go.sum"), os.path.join(VERIF, "harness", "go.sum"))
+    src = os.path.join(VERIF, "harness")
+    if REPO != "/repo":
+        src = os.path.join(workdir(pid), "harness_src")
+        shutil.rmtree(src, ignore_errors=True)
+        shutil.copytree(os.path.join(VERIF, "harness"), src)
+        gm = open(os.path.join(src, "go.mod")).read().replace("=> /repo", "=> " + REPO)
+        open(os.path.join(src, "go.mod"), "w").write(gm)
+    shutil.copyfile(os.path.join(REPO, "go.sum"), os.path.join(src, "go.sum"))
     t0 = time.time()
     r = subprocess.run(["go", "build", "-tags", "verif", "-o", out, "./cmd/pcharness"],
-                       cwd=os.path.join(VERIF, "harness"), env=goenv(), capture_output=True, text=True)
+                       cwd=src, env=goenv(), capture_output=True, text=True)
     if r.returncode != 0:
         log(r.stdout[-3000:], r.stderr[-3000:])
         raise Inconclusive("harness build failed (does /repo compile with -tags verif?)")
@@ -295,7 +306,7 @@ def trace_by_id(trace_file, sid):
 
 
 def write_replay(pid, n, v, inv, files):
-    d = os.path.join(VERIF, "work", pid, "violations", "%03d" % n)
+    d = os.path.join(WORKROOT, pid, "violations", "%03d" % n)
     os.makedirs(d, exist_ok=True)
     sc = scenario_by_id(files, v["sid"])
     if sc is not None:
@@ -338,5 +349,5 @@ def run_tlc_model(pid, module, cfg, timeout=900, workers=NCPU, extra=None):
 def write_evidence(pid, tier, seed, level, coverage, assumptions, wall, violations):
     ev = {"property_id": pid, "tier": tier, "seed": seed, "level": level, "coverage": coverage,
           "assumptions": assumptions, "wall_s": round(wall, 1), "violations": violations}
-    os.makedirs(os.path.join(VERIF, "evidence"), exist_ok=True)
-    json.dump(ev, open(os.path.join(VERIF, "evidence", pid + ".json"), "w"), indent=1, sort_keys=True)
+    os.makedirs(EVIDENCE_DIR, exist_ok=True)
+    json.dump(ev, open(os.path.join(EVIDENCE_DIR, pid + ".json"), "w"), indent=1, sort_keys=True)
